@@ -496,7 +496,9 @@ def to_regex(frag):
         if n[0] == 'lit':
             out.append(re.escape(n[1]))
         elif n[0] == 'hole':
-            out.append('(?:.*?)')
+            # an escaped value holds no '<' and a server-side value no line break: the hole cannot swallow markup
+            # of the following rows (and a page that does not fit is rejected fast instead of by exhaustive backtracking)
+            out.append({'escaped': '(?:[^<]*?)', 'rawTainted': '(?:.*?)'}.get(n[1], '(?:[^\\n]*?)'))
         elif n[0] in ('alt', 'ifdebug'):
             out.append('(?:%s|%s)' % (to_regex(n[1]), to_regex(n[2])))
         elif n[0] == 'star':
